@@ -95,6 +95,12 @@ func (t *tokGen) val() string {
 	if t.r.chance(6) { // a typed nil (nil pointer / nil map / nil chan): must travel as it is, not as untyped nil
 		return "t" + strconv.Itoa(1001+t.r.intn(4))
 	}
+	if t.r.chance(7) { // a flyt.Result used as an ordinary payload value (sometimes one holding another Result)
+		if t.r.chance(25) {
+			return "rr" + t.tok()
+		}
+		return "r" + t.tok()
+	}
 	return t.tok()
 }
 
@@ -165,7 +171,9 @@ func asFlowStep(cfg LeafCfg, scr LeafScript, t *tokGen) FlowScenario {
 	s1 := t.leafScript(1, 0, true, 1, 1, true, "=done")
 	return FlowScenario{Kind: "canceled", Ctx0: "live",
 		Nodes: []NodeDef{{ID: 0, Leaf: &cfg}, {ID: 1, Leaf: &succ},
-			{ID: 2, Flow: &FlowDef{Start: ip(0), Ops: []Conn{{Src: 0, Action: "a", Dst: ip(1)}, {Src: 0, Action: "default", Dst: ip(1)}}}}},
+			// the last row is a blank-action connection (table-driven wiring with an empty action cell): legal and
+			// dead, because no run ever reports the empty action; it must not disturb the "default" row
+			{ID: 2, Flow: &FlowDef{Start: ip(0), Ops: []Conn{{Src: 0, Action: "a", Dst: ip(1)}, {Src: 0, Action: "default", Dst: ip(1)}, {Src: 0, Action: "", Dst: nil}}}}},
 		LeafScripts: []LeafScript{scr, s1}, BatchScripts: []BatchScript{},
 		Steps: []Step{{Run: ip(2)}, {Run: ip(2)}}} // twice: every run gets its own store; the flow object is reused
 }
@@ -495,6 +503,9 @@ func randFlow(r *rng, p flowParams) FlowScenario {
 			}
 			acts := append([]string{}, p.actions...)
 			acts = append(acts, "default")
+			if r.chance(35) {
+				acts = append(acts, "") // a connection on the empty action: never followed, never in the way
+			}
 			nOps := len(members)*2 + r.intn(len(members)*len(acts)+1)
 			for o := 0; o < nOps; o++ {
 				c := Conn{Src: members[r.intn(len(members))], Action: acts[r.intn(len(acts))]}
